@@ -83,6 +83,10 @@ def slot_of(name):
 def attr_lines(level, items, i, indent):
     groups, seen = [], {}
     for it in items:
+        if it["name"] == "attr_shape":
+            # the whole attribute written without an argument list; always an attribute of its own
+            groups.append((("shape", len(groups)), ["#SHAPE:" + it["form"]]))
+            continue
         s = slot_of(it["name"])
         nth = seen.get(s, 0)
         seen[s] = nth + 1
@@ -91,7 +95,13 @@ def attr_lines(level, items, i, indent):
             groups[-1][1].append(txt)
         else:
             groups.append((it["grp"], [txt]))
-    return ["%s#[deserr(%s)]" % (indent, ", ".join(g[1])) for g in groups]
+    out = []
+    for g in groups:
+        if g[1] and g[1][0].startswith("#SHAPE:"):
+            out.append(indent + ("#[deserr]" if g[1][0].endswith("bare") else '#[deserr = "x"]'))
+        else:
+            out.append("%s#[deserr(%s)]" % (indent, ", ".join(g[1])))
+    return out
 
 
 def render(rec, i):
